@@ -93,10 +93,11 @@ def replay_history(model, cls="SinglePhaseReservoir", hist=()):
     def mk():
         return rr.IdealReservoir(5, 1000.0, 8000.0, None) if fluid is None else rr.SinglePhaseReservoir(5, 1000.0, 8000.0, fluid)
 
-    def run(ops):
+    def run(ops, state_after_first=False):
         o = mk()
         last = None
-        for op in ops:
+        since, repeats, st_first = {}, [], None
+        for n_, op in enumerate(ops):
             try:
                 if op == "simAs":
                     o.simulate(grids["simA"], sched)
@@ -115,17 +116,34 @@ def replay_history(model, cls="SinglePhaseReservoir", hist=()):
                     last = ("value", [float(f(tq))])
             except (RuntimeError, AttributeError, ValueError, KeyError, TypeError) as ex:
                 last = ("exc", type(ex).__name__)
+            if op in SIMS:
+                since = {}
+            elif op in since:
+                repeats.append((op, since[op], last))
+            else:
+                since[op] = last
+            if op in ("rf", "rfd"):
+                since.pop("interp", None)
+            if n_ == 0 and state_after_first and hasattr(o, "time"):
+                st_first = list(map(float, o.time)) + np.asarray(o.pseudopressure, float).ravel().tolist()
         st = []
         if hasattr(o, "time"):
             st = list(map(float, o.time)) + np.asarray(o.pseudopressure, float).ravel().tolist()
-        return last, st
-    (ka, va), sa = run(hist)
-    (kb, vb), sb = run(_fresh_history(hist))
+        return last, (st_first if st_first is not None else st), repeats
+    close = lambda x, y: abs(x - y) <= 1e-9 * (1 + abs(y))
+    (ka, va), sa, reps = run(hist)
+    (kb, vb), sb, _ = run(_fresh_history(hist), state_after_first=True)
+    bad_rep = [f"{op} returned {r1} and then {r2}" for op, r1, r2 in reps
+               if r1[0] != r2[0] or (r1[0] == "exc" and r1[1] != r2[1]) or (r1[0] == "value" and (len(r1[1]) != len(r2[1]) or not all(close(x, y) for x, y in zip(r1[1], r2[1]))))]
     bad = ka != kb or (ka == "exc" and va != vb) or len(sa) != len(sb) or \
-        (ka == "value" and (len(va) != len(vb) or any(abs(x - y) > 1e-9 * (1 + abs(y)) for x, y in zip(va, vb)))) or \
-        any(abs(x - y) > 1e-9 * (1 + abs(y)) for x, y in zip(sa, sb))
-    return bad, {"what": f"{cls}: history {list(hist)} ends with {ka} {va} but a fresh object running {_fresh_history(hist)} gives {kb} {vb}",
-                 "inputs": dict({k: v.tolist() for k, v in grids.items()}, schedule=sched.tolist())}
+        (ka == "value" and (len(va) != len(vb) or any(not close(x, y) for x, y in zip(va, vb)))) or \
+        any(not close(x, y) for x, y in zip(sa, sb)) or bool(bad_rep)
+    what = f"{cls}: history {list(hist)} ends with {ka} {va} but a fresh object running {_fresh_history(hist)} gives {kb} {vb}"
+    if bad_rep:
+        what = f"{cls}: history {list(hist)}: repeating a call changed its result: " + "; ".join(bad_rep[:2])
+    elif bad and ka == kb and (ka != "value" or (len(va) == len(vb) and all(close(x, y) for x, y in zip(va, vb)))):
+        what = f"{cls}: history {list(hist)}: the stored times / field differ from those the latest simulate alone produces (a recovery or interpolator call modified them)"
+    return bad, {"what": what, "inputs": dict({k: v.tolist() for k, v in grids.items()}, schedule=sched.tolist())}
 
 
 # ------------------------------------------------------------------ job
@@ -157,16 +175,32 @@ def job_histories(job, cls, L, chunk, nchunks):
                 return mod.IdealReservoir(Q(nx), pf, pi, None) if fluid is None else mod.SinglePhaseReservoir(Q(nx), pf, pi, fluid)
             a = mk()
             ra = None
-            prev = None
-            repeat_ok = True
+            since = {}          # op -> first result since the latest simulate (for "repeating a call returns the same result")
+            repeats = []
             for op in hist:
-                ra_new = _apply(a, op, grids, q)
-                ra, prev = ra_new, ra
+                ra = _apply(a, op, grids, q)
+                if op in SIMS:
+                    since = {}
+                elif op in since:
+                    repeats.append((op, since[op], ra))
+                else:
+                    since[op] = ra
+                if op in ("rf", "rfd"):
+                    # the interpolator is documented as the interpolator of the recovery most recently computed ("requires
+                    # that recovery_factor has been run"): a recovery call in another mode legitimately changes what the
+                    # next interpolator returns, so interpolator results are compared only across calls with no recovery
+                    # call in between; rf / rfd carry their mode as an argument and are compared across any calls
+                    since.pop("interp", None)
             b = mk()
             rb = None
+            sb = None
             for op in _fresh_history(hist):
                 rb = _apply(b, op, grids, q)
-            return ra, rb, _state(a), _state(b)
+                if sb is None:
+                    # the stored times / field are those the latest simulate produced: recovery and interpolator calls made
+                    # afterwards must leave them alone, so the reference state is taken right after the fresh simulate
+                    sb = _state(b)
+            return ra, rb, _state(a), (sb if sb is not None else _state(b)), repeats
 
         res = paths(job, run, [], max_paths=64)
         for k, pr in enumerate(res):
@@ -175,10 +209,20 @@ def job_histories(job, cls, L, chunk, nchunks):
                     continue
                 job.errors.append(f"{cls} history {hist} raised {pr.exc!r}")
                 continue
-            (ka, va), (kb, vb), sa, sb = pr.value
+            (ka, va), (kb, vb), sa, sb, repeats = pr.value
             name = f"{cls}/{'>'.join(hist)}[path{k}]"
             rp = (replay_history, {"cls": cls, "hist": list(hist)})
             checked += 1
+            for op, (k1, v1), (k2, v2) in repeats:
+                rname = f"{name}: repeating {op} returns the same result"
+                if k1 != k2 or (k1 == "exc" and v1 != v2) or (k1 == "value" and len(v1) != len(v2)):
+                    job.prove(rname + f" (outcome kind {k1} then {k2})", pr.pc, bound=f"history length {len(hist)}", replay=rp, elim=True)
+                elif k1 == "value":
+                    d = _differs(list(v1), list(v2), pr.ctx.normal)
+                    if d.kind == "const" and not d.args[0]:
+                        job.record(rname, "unsat", 0.0, note="syntactically identical")
+                    else:
+                        job.prove(rname, pr.pc + [d], bound=f"history length {len(hist)}", replay=rp, elim=True)
             if ka != kb or (ka == "exc" and va != vb) or len(sa) != len(sb) or (ka == "value" and len(va) != len(vb)):
                 job.prove(f"{name}: outcome kind differs from a fresh object ({ka} {va if ka == 'exc' else len(va)} vs {kb} {vb if kb == 'exc' else len(vb)})",
                           pr.pc, bound=f"history length {len(hist)}", replay=rp, elim=True)
